@@ -39,3 +39,12 @@ CLAIMED["C12"] = dict(engine="E2", category="model_checking", design_ref="DESIGN
     technique="exports taken in every distinct region state reached by the E2 history search plus bounded-exhaustive fixed regions x maxdepth 1..12, decoded by an independent NUNIQ / DS9 / pickle reader",
     text="Every distinct internal representation of every register reached by the history search (depth 2 quick / 3 thorough), i.e. before and after demoting queries, is written as MOC FITS, DS9 and .mim and decoded independently (NUNIQ -> order, ipix -> deepest level; polygon vertices vs healpy pixel corners; load equality and fixpoint); plus {empty, single, circle, whole sky} x maxdepth 1..12 x {fresh, after query}.",
     note="healpy.boundaries is the trusted pixel outline; DS9 vertices compared at the printed precision.")
+ENGINES[0]["serves_properties"] += ["C09", "C10"]
+CLAIMED["C09"] = dict(engine="E1", category="exploration", design_ref="DESIGN.md section 3, C09",
+    technique="bounded-exhaustive enumeration of centre x radius x depth (circles) and centre x n-gon x size x depth x winding (polygons), queried at every pixel centre of the sphere and on boundary rings, vs longdouble great-circle distances",
+    text="Every combination of 7 centres (both poles, RA wrap), 4 radii and depths 3..12 (circles) and 6 vertex counts x 3 sizes x depths x 2 windings (polygons) is built with the real Region and queried at EVERY pixel centre of the whole sphere one level finer plus rings just inside the shape and just beyond radius + 3 pixels, through scalar/list/array and degree/radian interfaces; membership and cap areas are decided against an independent vector distance.",
+    note="Radius capped at depth >= 9 to keep regions <= 2e5 pixels; healpy is NOT the oracle here (distance is), so Aegean's use of healpy is what is checked.")
+CLAIMED["C10"] = dict(engine="E1", category="exploration", design_ref="DESIGN.md section 3, C10",
+    technique="bounded-exhaustive enumeration of image shape x WCS x region x depth x negate x dimensionality and of all 2^5 table row subsets vs an independent pixel-centre WCS model and HEALPix membership",
+    text="Full product of 3 shapes x 3 projections x {centred, off-image CRPIX} x 2 scales x 3 region kinds x 2 depths x negate x {mask_plane, mask_file 2-D/3-D/4-D}: the blanked set must equal the set of pixels whose centre (independent zenithal WCS model) falls outside the region's own pixel set, complements under negate, other values bit-identical, all planes equal; tables: all 32 subsets of five archetype rows incl. empty and NaN coordinates through mask_table and mask_catalog (csv, fits), custom column names.",
+    note="Rotation-free headers; pixels whose centre is within 1e-6 pixel of a HEALPix boundary are excluded (count reported, 0 on the current lattice).")
